@@ -122,6 +122,9 @@ class Run:
         for key, what in sorted(self.known_hit.items()):
             lines.append(f"KNOWN-FINDING: property={self.pid} {key} :: {what}")
         vio_out = []
+        if os.environ.get("VERIF_VERBOSE"):
+            for key, what, case in self.violations:
+                print("V|", what[:300])
         for key, what, case in self.violations[:50]:
             h = hashlib.sha1(key.encode("utf-8", "replace")).hexdigest()[:12]
             path = os.path.join(REPLAY, f"{self.pid}-{h}.json")
